@@ -52,6 +52,9 @@ type c29Case struct {
 	Files   []c29File   `json:"files"`
 	Targets []c29Target `json:"targets"`
 	Results []string    `json:"results,omitempty"`
+	// AbandonFirst: before this call the same targets are sent a 12-chunk file by a caller that goes away
+	// (cancels) as soon as the first result arrived; the call judged here must be unaffected
+	AbandonFirst bool `json:"preceded_by_abandoned_call,omitempty"`
 }
 
 func c29Content(f c29File) []byte {
@@ -180,7 +183,20 @@ func TestC29(t *testing.T) {
 		viol := func(key, what string) {
 			rec.Violation("send/"+c.API+"/"+key+"/"+class, what+fmt.Sprintf(" — %s, %d file(s) sizes %v, targets %+v", c.API, len(c.Files), sizes(c.Files), c.Targets), c)
 		}
-		ctx, cancel := context.WithTimeout(context.Background(), 30*time.Second)
+		if c.AbandonFirst && len(reqIDs) >= 2 {
+			actx, acancel := context.WithCancel(context.Background())
+			o := &pb.SendOptions{IDs: reqIDs, Data: map[string][]byte{"/data/abandoned": make([]byte, 12*chunk)}, Modes: map[string]*pb.FileMode{"/data/abandoned": {Mode: 0o644}}, Owners: map[string]*pb.FileOwner{"/data/abandoned": {Uid: 1, Gid: 1}}}
+			if st, err := cli.Send(actx, o); err == nil {
+				_, _ = st.Recv() // the first result, then the caller is gone
+			}
+			acancel()
+			time.Sleep(300 * time.Millisecond)
+			rec.Count("abandoned_calls", 1)
+			addClass("after-abandoned-call")
+			sort.Strings(classes)
+			class = strings.Join(classes, "+")
+		}
+		ctx, cancel := context.WithTimeout(context.Background(), 45*time.Second)
 		defer cancel()
 		type res struct{ id, path, err string }
 		results := []res{}
@@ -253,7 +269,7 @@ func TestC29(t *testing.T) {
 		var callErr error
 		select {
 		case callErr = <-done:
-		case <-time.After(35 * time.Second):
+		case <-time.After(50 * time.Second):
 			callErr = context.DeadlineExceeded
 		}
 		rec.Count("calls/"+c.API, 1)
@@ -373,6 +389,7 @@ func TestC29(t *testing.T) {
 			}
 			c.Targets = append(c.Targets, tg)
 		}
+		c.AbandonFirst = nt >= 2 && r.Intn(6) == 0
 		run(c)
 	}
 }
